@@ -393,6 +393,8 @@ struct Gen {
                 c = best;
             } else
                 c = (int)r.below(n);
+            while (desc[c] == 0) // a class set aside by the profile
+                c = (c + 1) % n;
             m.vp.push_back(c);
         }
         return add(m);
@@ -536,7 +538,7 @@ struct Gen {
 };
 
 bool small_ids_policy(const std::string& n) {
-    return n == "vec" || n == "dfv";
+    return n == "vec" || n == "dfv" || n == "vecx";
 }
 bool no_alias_policy(const std::string& n) {
     return n == "sdbg" || n == "srel";
@@ -708,7 +710,8 @@ void history(
     Gen& g, const HistOpts& o, int pi, std::vector<Module>& mods, int steps,
     int routes) {
     auto& pname = g.p.pols[pi];
-    bool has_hash = pname != "vec" && pname != "map" && pname != "dfv";
+    bool has_hash = pname != "vec" && pname != "map" && pname != "dfv" &&
+        pname != "mapx" && pname != "mapy" && pname != "vecx";
     auto can_load = [&](int m) {
         if (mods[m].loaded)
             return false;
@@ -992,12 +995,28 @@ Plan gen_C09(std::uint64_t seed, int tier) {
     o.p_abstract = 0.08;
     basic_world(g, o, small_ids_policy(pol));
     int n = g.p.w.ncls;
-    // module A: every class, 1-3 pointer-taking methods and their definitions
+    // module A: the core classes, 1-3 pointer-taking methods and their
+    // definitions; some leaf classes belong to module B, which comes and
+    // goes: the class set, and with it the hash function and the v-table
+    // pointer tables, change between updates while pointers are alive
     std::vector<int> A;
+    std::vector<int> B;
+    std::set<int> extra;
+    for (int c = n - 1; c >= 1 && (int)extra.size() < 3; --c)
+        if (g.desc[c] == (1u << c) && g.r.chance(0.6))
+            extra.insert(c);
+    if ((int)extra.size() >= n - 1)
+        extra.clear();
     auto cr = g.class_recs(0, g.r.chance(0.5) ? ST_COMPLETE : -1, o.max_alias > 1);
-    for (auto& v : cr)
-        for (int ri : v)
-            A.push_back(ri);
+    for (int c = 0; c < n; ++c)
+        for (int ri : cr[c])
+            (extra.count(c) ? B : A).push_back(ri);
+    // the methods and definitions of module A only mention core classes
+    for (int c : extra) {
+        g.desc[c] = 0;
+        for (int b = 0; b < n; ++b)
+            g.desc[b] &= ~(1u << c);
+    }
     std::vector<int> meths;
     for (int s : g.pick_slots(VP_SLOTS, g.r.range(1, 3))) {
         int mi = g.method(0, s, 0.8);
@@ -1006,9 +1025,10 @@ Plan gen_C09(std::uint64_t seed, int tier) {
         for (int di : g.defs(0, mi, g.r.range(1, 6), 0.7))
             A.push_back(di);
     }
-    // module B, loaded later: another method with many definitions, so that
-    // the dispatch data grows and is reallocated by the next update
-    std::vector<int> B;
+    // module B, loaded later: its classes, and another method with many
+    // definitions, so that the dispatch data grows and is reallocated by the
+    // next update
+    g.closure();
     {
         int mi = g.method(0, g.r.chance(0.5) ? 10 : 8, 0.9);
         B.push_back(mi);
@@ -1283,7 +1303,25 @@ Plan gen_C15(std::uint64_t seed, int tier) {
     for (int ri : all)
         if (g.p.recs[ri].kind != RK_CLASS && refs_class(ri, victim))
             lost.insert(ri);
-    g.ev_load(g.order(without(lost)));
+    if (g.r.chance(0.5)) {
+        // the class was registered once, and its registration went away
+        // (a library was unloaded): it is unregistered all the same
+        g.p.profile += "/unregistered";
+        g.ev_load(g.order(all));
+        g.ev_update(0);
+        if (g.r.chance(0.5))
+            g.ev_check(0, ROUTES_BASIC, 60);
+        std::vector<int> gone;
+        for (int ri : all)
+            if (lost.count(ri) ||
+                (g.p.recs[ri].kind == RK_DEF && lost.count(g.p.recs[ri].meth)))
+                gone.push_back(ri);
+        std::stable_sort(gone.begin(), gone.end(), [&](int a, int b) {
+            return g.p.recs[a].kind == RK_DEF && g.p.recs[b].kind != RK_DEF;
+        });
+        g.ev_unload(gone);
+    } else
+        g.ev_load(g.order(without(lost)));
     g.ev_update(0);
     Registry reg = full_registry(g.p, 0, lost);
     // definitions of lost methods are gone too
@@ -1573,10 +1611,21 @@ Plan gen_C14(std::uint64_t seed, int tier) {
     g.p.prop = "C14";
     g.p.profile = "isolation";
     std::vector<std::string> pool = {"dbg", "rel", "vec", "map", "ind",
-                                     "cind", "thr", "sdbg", "srel"};
+                                     "cind", "thr", "sdbg", "srel", "mapx",
+                                     "mapy", "relx", "vecx"};
     g.r.shuffle(pool);
     int np = g.r.range(2, 3);
     pool.resize(np);
+    if (g.r.chance(0.35)) {
+        // a policy next to the one it was rebound / derived from
+        static const char* pairs[][2] = {{"mapx", "mapy"}, {"rel", "relx"},
+                                         {"ind", "vecx"}, {"mapy", "mapx"}};
+        auto& pr = pairs[g.r.below(4)];
+        pool[0] = pr[0];
+        pool[1] = pr[1];
+        if (np > 2 && (pool[2] == pool[0] || pool[2] == pool[1]))
+            pool.resize(2), np = 2;
+    }
     g.p.pols = pool;
     bool small = false;
     for (auto& n : pool)
